@@ -44,6 +44,37 @@ def run(seed, n_graphs):
                 res["disagreements"].append(dict(stage="graph_chi2", graph=k, impl=float(total_impl), model=total_model, edges=len(chis), desc=desc if len(res["disagreements"]) < 2 else None))
             if g._chi2 != total_impl:
                 res["disagreements"].append(dict(stage="graph_chi2_cache", graph=k))
+            # history: the graph is edited after a chi2 evaluation (poses moved, measurements / information changed,
+            # an optimize() in between); every later calc_chi2() must again be the sum over the *current* edges
+            for step in range(rng.randrange(1, 4)):
+                act = rng.choice(["move", "estimate", "info", "optimize"])
+                if act == "move":
+                    v = rng.choice(g._vertices)
+                    v.pose = v.pose + np.array([rng.gauss(0, 0.3) for _ in range(v.pose.COMPACT_DIMENSIONALITY)])
+                elif act == "estimate":
+                    e = rng.choice(g._edges)
+                    if hasattr(e.estimate, "COMPACT_DIMENSIONALITY"):
+                        e.estimate = e.estimate + np.array([rng.gauss(0, 0.3) for _ in range(e.estimate.COMPACT_DIMENSIONALITY)])
+                    else:
+                        e.estimate = e.estimate + rng.gauss(0, 0.3)
+                elif act == "info":
+                    c = rng.choice([0.5, 2.0, 10.0])
+                    for e in g._edges:
+                        e.information = np.asarray(e.information) * c
+                else:
+                    import warnings
+
+                    with warnings.catch_warnings():
+                        warnings.simplefilter("ignore")
+                        g.optimize(max_iter=1, verbose=False, fix_first_pose=False)
+                chis2 = [float(e.calc_chi2()) for e in g._edges]
+                t_impl = g.calc_chi2()
+                t_model = h2f(drv.ask("sum " + " ".join(f2h(c) for c in chis2)).split()[1])
+                res["cases"] += 1
+                res["history_steps"] = res.get("history_steps", 0) + 1
+                if not ((t_impl == t_model) or (math.isnan(t_impl) and math.isnan(t_model))):
+                    res["disagreements"].append(dict(stage="graph_chi2_after_" + act, graph=k, impl=float(t_impl), model=t_model))
+                    break
             if k < 2:
                 res["samples"].append(dict(world=desc["world"], n_vertices=len(desc["vertices"]), n_edges=len(chis), graph_chi2=float(total_impl), edge_chi2=chis[:4]))
             if len(res["disagreements"]) > 5:
